@@ -567,6 +567,11 @@ class SInt(object):
             # only masks with 2^k-1 / ... are supported in the Int back end
             if op == '&' and isinstance(b, int) and b >= 0 and (b & (b + 1)) == 0:
                 return SInt._mk(a.t % (b + 1), 0, b)
+            if op == '&' and isinstance(b, int) and b > 0 and alo >= 0:
+                low = (b & -b)                       # lowest set bit
+                if ((b // low) & (b // low + 1)) == 0 and ahi <= (b | (low - 1)):
+                    # mask = contiguous ones from bit log2(low) up to the top of a's range
+                    return SInt._mk(a.t - a.t % low, 0, ahi - (ahi % low) if True else ahi)
             if op == '&' and isinstance(b, int) and b >= 0 and alo >= 0:
                 # general non-negative constant mask: sum of selected bits
                 t = z3.IntVal(0)
@@ -578,6 +583,18 @@ class SInt(object):
                     bb >>= 1
                     k += 1
                 return SInt._mk(t, 0, min(b, ahi))
+            if op == '&' and isinstance(b, int) and b >= 0 and alo >= 0:
+                pass
+            if op == '|' and isinstance(b, int) and b >= 0 and alo >= 0:
+                # set the bits of the constant that are not yet set
+                t = a.t
+                k, bb = 0, b
+                while bb:
+                    if bb & 1:
+                        t = t + (1 - (a.t / (1 << k)) % 2) * (1 << k)
+                    bb >>= 1
+                    k += 1
+                return SInt._mk(t, max(alo, b), ahi | b if (ahi | b) >= ahi else ahi + b)
             raise Unsupported('bit operation %s in Int back end' % op)
         w = max(bits_needed(alo, ahi), bits_needed(blo, bhi))
         ta, tb = _bvterm(a, w), _bvterm(b, w)
